@@ -630,6 +630,38 @@ def run_loop_closures(res):
                             "the innermost enclosing loop gives %r" % (cname, where, "also reads" if outside else "does not read", text, got, exp),
                         )
                     res.nontrivial("lc", text)
+    # `loop` read ONLY in an attribute of a tag written in the loop body (call expression, <%ns:def> attribute,
+    # include file/args, filter= of <%text> / <%block>, default of a nested def)
+    pre = ('<%! \ndef mk(i):\n    return lambda s: s + "~" + str(i)\n%>' '<%def name="f(i)">[f${i}]${caller.body() if caller else ""}</%def>')
+    attr_sites = {
+        "call-expr": ('<%call expr="f(loop.index)">B</%call>', "[f%d]B"),
+        "ns-call-attribute": ('<%self:f i="${loop.index}"/>', "[f%d]"),
+        "ns-call-attribute-mixed": ('<%self:f i="n${str(loop.index)}"/>', "[fn%d]"),
+        "include-args": ('<%include file="inc.html" args="i=loop.index"/>', "[inc%d]"),
+        "include-file-expression": ("<%include file=\"${'inc.html' if loop.index >= 0 else None}\" args=\"i=7\"/>", "[inc7]"),
+        "text-filter": ('<%text filter="mk(loop.index)">t</%text>', "t~%d"),
+        "block-filter": ('<%block filter="mk(loop.index)">b</%block>', "b~%d"),
+        "expression-filter-argument": ('${"e" | mk(loop.index)}', "e~%d"),
+    }
+    for sname, (frag, fmt) in attr_sites.items():
+        for where in ("body", "def"):
+            for outside in (False, True):
+                loop_text = "% for o in 'abc':\n" + ("<${loop.index}>" if outside else "") + frag + "\n% endfor\n"
+                text = pre + "\n" + (loop_text if where == "body" else '<%def name="encl()">\n' + loop_text + "</%def>${encl()}\n")
+                exp = "".join(("<%d>" % i if outside else "") + (fmt % i if "%d" in fmt else fmt) for i in range(3))
+                lk = _st["TemplateLookup"]()
+                lk.put_string("inc.html", '<%page args="i"/>[inc${i}]')
+                lk.put_string("t.html", text)
+                res.evaluations += 1
+                res.count("loop_closure_renders")
+                try:
+                    got = "".join(lk.get_template("t.html").render_unicode().split())
+                except Exception as e:
+                    got = "%s: %s" % (type(e).__name__, e)
+                if got != exp:
+                    res.violate("loop-in-tag-attribute", "`loop` read in %s of a tag written in a `%% for` body (%s; loop body %s `loop` itself): template\n%s\nrendered %r, "
+                                "expected %r" % (sname, where, "also reads" if outside else "does not read", text, got, exp))
+                res.nontrivial("la", text)
 
 
 def gen_cases(tier, seed):
